@@ -112,6 +112,62 @@ def guard(rep):
                 ok = passed is not None and not (isinstance(passed, VObj) and passed.t.eq(SEEN))
                 rep.add(f'C20.collection_items.post.seen_grows.{e[1]}.path{i}', 'proved' if ok else 'refuted', backend='structural', where='the set passed to the item inferers is the union of the incoming set with {id(obj)} (not the incoming set itself)')
 
+def item_loop(rep):
+    """(F) _infer_hint_reiterable_items on a SEQUENCE of any length: the hint handed to the union / fixed-tuple factory contains the
+    inferred hint of EVERY item (linear-time strategy and root tuples), respectively is the inferred hint of the sampled item (constant-time
+    strategy).  The accumulating local list is a ghost sequence under the loop invariant `list[j] == infer_hint(obj[j]) for all j < i`."""
+    from pyvc import funcmode, model as M, discharge, symx
+    from pyvc.symx import Exec, St, VObj, VPy, VInt, VTup
+    import collections.abc as cabc
+    import beartype.bite.collection.infercollectionitems as mod
+    import beartype.bite._infermain as mainmod
+    from beartype import BeartypeStrategy
+    fobj, node, _ = funcmode.load('beartype/bite/collection/infercollectionitems.py', '_infer_hint_reiterable_items')
+    uni = M.Universe()
+    for c in (cabc.Sized, cabc.Collection, cabc.Sequence, cabc.Iterable, list, tuple, frozenset, object): uni.const(c)
+    OBJ = z3.Const('obj', M.Obj); FACT = z3.Const('hint_factory', M.Obj); CONF = z3.Const('conf', M.Obj); SEEN = z3.Const('seen', M.Obj)
+    INF = z3.Function('infer_hint_of', M.Obj, M.Obj); R = z3.Int('random_draw')
+    def m_inf(ex, s, f, a, kw, w):
+        kw = dict(kw); return [(s.ev('infer', ex.obj(kw.get('obj', a[0] if a else None))), VObj(INF(ex.obj(kw.get('obj', a[0] if a else None)))))]
+    def m_rand(ex, s, f, a, kw, w): return [(s, VInt(R))]
+    def m_made(tag): return lambda ex, s, f, a, kw, w: [(s.ev(tag, ex.obj(a[0])), VObj(M.fresh(tag)))]
+    def sub_hook(ex, s, b, i, where):
+        if isinstance(b, VObj) and b.t.eq(FACT): return [(s.ev('subscripted', i), VObj(M.fresh('subscripted_factory')))]
+        return None
+    cm = {mainmod.infer_hint: m_inf, mod.get_integer_pseudorandom_signed_32bit: m_rand, mod.make_hint_pep484585_tuple_fixed: m_made('made_fixed'), mod.make_hint_pep484604_union: m_made('made_union')}
+    scope = dict(mod.__dict__); scope['infer_hint'] = mainmod.infer_hint
+    ex = Exec(uni, scope, call_model=cm, name='reiterable_items'); ex.fields_mode = True; ex.local_lists = {'hints_item_list'}; ex.subscript_hook = sub_hook
+    ex.set_target(node)
+    j_ = z3.Int('j_inv')
+    def inv(ex_, i, env, B, s):
+        L = ex_.obj(env['hints_item_list'])
+        return z3.And(M.inst(L, uni.const(list)), M.len_(L) == i, z3.ForAll([j_], z3.Implies(z3.And(0 <= j_, j_ < i), M.item(L, j_) == INF(M.item(OBJ, j_)))))
+    ex.loop_contracts = {k: dict(name=f'items{k}', vars=['hints_item_list'], inv=inv) for k in range(len(ex.loop_index))}
+    pre = (M.inst(OBJ, uni.const(cabc.Sequence)), M.len_(OBJ) >= 1, M.inst(SEEN, uni.const(frozenset)), 0 <= R)
+    body = [st for st in node.body if not isinstance(st, ast.Assert) and not (isinstance(st, ast.Expr) and isinstance(st.value, ast.Constant))]
+    env = {'obj': VObj(OBJ), 'hint_factory': VObj(FACT), 'conf': VObj(CONF), '__beartype_obj_ids_seen__': VObj(SEEN)}
+    outs = ex.exec_block(body, St(tuple(env.items()), pre))
+    pr = discharge.Prover(uni.axioms())
+    for ob in ex.obls:
+        r = pr.prove(list(ob.pc), ob.goal); rep.add(f'C20.reiterable_items.{ob.kind}#{ob.name.rsplit(".", 1)[-1]}', r.status, time=r.time, backend=r.backend, where=ob.where, reason=r.reason)
+    n = 0; jj = z3.Int('j_post')
+    O1 = uni.const(BeartypeStrategy.O1)
+    for i, (kind, s_, v) in enumerate(outs):
+        if kind != 'return': continue
+        n += 1
+        made = [e for e in s_.events if e[0] in ('made_fixed', 'made_union')]
+        if made:
+            arg = made[-1][1]
+            r = pr.prove(list(s_.pc), z3.ForAll([jj], z3.Implies(z3.And(0 <= jj, jj < M.len_(OBJ)), M.mem(arg, INF(M.item(OBJ, jj))))))
+            rep.add(f'C20.reiterable_items.post.every_item_contributes.path{i}', r.status, time=r.time, backend=r.backend, reason=r.reason,
+                    where=f'the child hints handed to {made[-1][0][5:]} include infer_hint(item) for EVERY item of the sequence (any length)')
+        else:
+            infs = [e[1] for e in s_.events if e[0] == 'infer']
+            ok = len(infs) == 1
+            r = pr.prove(list(s_.pc), z3.Or(*[infs[0] == M.item(OBJ, R % M.len_(OBJ))] if ok else [z3.BoolVal(False)]))
+            rep.add(f'C20.reiterable_items.post.sampled_item.path{i}', r.status if ok else 'refuted', time=r.time, backend=r.backend, where='constant-time strategy / one item: the hint of the item at index draw mod len is inferred (an item of the object itself)')
+    if not n: rep.error('C20.reiterable_items: no returning path')
+
 GRAMMAR_SCALARS = ['1', 'True', "'a'", '2.5', 'None', "b'x'", '1j', 'L0()', 'HasMeth()']
 def objects(tier):
     out = list(GRAMMAR_SCALARS)
@@ -218,7 +274,7 @@ def classify(src, msg):
 
 def main(tier, seed):
     rep = report.Report('C20', tier, seed, 'other', f'./check C20 --tier {tier}')
-    for fn in (propagation, guard):
+    for fn in (propagation, guard, item_loop):
         try: fn(rep)
         except Exception: rep.error(f'C20 {fn.__name__}: ' + traceback.format_exc()[-2500:])
     try: bounded(rep, tier)
